@@ -3,15 +3,13 @@
 Input : (history (op ...)) | (runUser beh)          (codecs: TTV/Drv/C20.lean, model: TTV/Model/Deferred.lean)
   op  = (fire res) | (add (cb onOk onFail tag)) | (resume res) | (match matcher) | classify | extract
   res = (ok val) | (fail e)      val = none | (num n) | (pair val val)
-        (num n) with n >= 100 is a value TOKEN: the object TOKENS[n - 100] (hostile ==: equal to everything, mock.ANY, == without a
-        truth value; falsy but valid: '', [], (), {}, a falsy object), else the int n.  The model never looks inside a number; what
-        comes back (extract_result, what probes see) is mapped to its token by IDENTITY (`is`).
   act = keep | (ret res viaDeferred) | inc | wait        tag = plain | (probe k)
   matcher = noResult | (succeeded always|never|(equals val)) | (failed always|never|(isExc e))
 Trace : (history (obs ...) ((probe-id res) ...) called logged-at-gc) | (runUser outcome)
 """
 import gc, itertools
 from harness.core import Prop, some
+from harness.mrun import EqualToEverything, NoTruthEq
 
 
 class E(Exception):
@@ -22,44 +20,63 @@ class E(Exception):
         self.code = code
 
 
-from harness.props.c15 import Anything, ArrayLike, Falsy     # noqa: E402
+class EEqAll(E):
+    """an exception that compares equal to everything"""
+    def __eq__(self, other):
+        return True
 
-TOKEN_BASE = 100
+    def __ne__(self, other):
+        return False
+    __hash__ = Exception.__hash__
 
 
-def _tokens():
-    from unittest import mock
-    return [Anything(), ArrayLike(), mock.ANY, '', [], (), {}, Falsy()]
+class EFalsy(E):
+    """an exception that is falsy (and has length 0)"""
+    def __bool__(self):
+        return False
+
+    def __len__(self):
+        return 0
 
 
-TOKENS = _tokens()
-TOKEN_NAMES = ['anything', 'arraylike', 'mock.ANY', 'empty-str', 'empty-list', 'empty-tuple', 'empty-dict', 'falsy-object']
-HOSTILE = 3                                                  # the first three have a == that lies or has no truth value
-# (None and 0 are the model's `none` / `num 0`; False and 0.0 are left out because Python's == identifies them with 0, which the
-# Equals matcher - equality by design - would see)
+class ENoTruth(E):
+    """an exception whose == has no truth value"""
+    def __eq__(self, other):
+        return NoTruthEq() == other
+    __ne__ = __eq__
+    __hash__ = Exception.__hash__
+
+
+def mkexc(code):
+    """failure values: codes 3, 4, 5 are the exceptions with an unusual == / truth value, every other code a plain E"""
+    return {3: EEqAll, 4: EFalsy, 5: ENoTruth}.get(code, E)(code)
 
 
 def pyval(v):
     if v is None or v == 'none':
         return None
     if v[0] == 'num':
-        k = v[1] - TOKEN_BASE
-        return TOKENS[k] if 0 <= k < len(TOKENS) else v[1]
+        return v[1]
+    if v[0] == 'sym':       # objects whose == / truth value must never decide anything (fresh ones each time)
+        return [EqualToEverything, NoTruthEq, str, list, bool, tuple][v[1]]()
     return (pyval(v[1]), pyval(v[2]))
-
-
-def token_of(x):
-    for k, obj in enumerate(TOKENS):
-        if x is obj:
-            return k
-    return None
 
 
 def sxval(x):
     if x is None:
         return 'none'
-    if token_of(x) is not None:
-        return ['num', TOKEN_BASE + token_of(x)]
+    if isinstance(x, EqualToEverything):        # (by type, never by ==)
+        return ['sym', 0]
+    if isinstance(x, NoTruthEq):
+        return ['sym', 1]
+    if isinstance(x, str) and len(x) == 0:
+        return ['sym', 2]
+    if isinstance(x, list) and len(x) == 0:
+        return ['sym', 3]
+    if x is False:
+        return ['sym', 4]
+    if isinstance(x, tuple) and len(x) == 0:
+        return ['sym', 5]
     if isinstance(x, bool):
         return ['not-a-model-value', 'bool']
     if isinstance(x, int):
@@ -91,9 +108,7 @@ class World:
         if act == 'keep':
             f = lambda x: x
         elif act == 'inc':
-            # (a token goes to the next token, as the model's number does)
-            f = lambda x: (pyval(['num', TOKEN_BASE + token_of(x) + 1]) if token_of(x) is not None else
-                           (x or 0) + 1 if x is None or (isinstance(x, int) and not isinstance(x, bool)) else x)
+            f = lambda x: (x or 0) + 1 if x is None or (isinstance(x, int) and not isinstance(x, bool)) else x
         elif act == 'wait':
             def f(x):
                 d = defer.Deferred()
@@ -107,10 +122,10 @@ class World:
             else:
                 code = r[1]
                 if via:
-                    f = lambda x: defer.fail(E(code))
+                    f = lambda x: defer.fail(mkexc(code))
                 else:
                     def f(x):
-                        raise E(code)
+                        raise mkexc(code)
         if tag != 'plain':
             k, inner = tag[1], f
 
@@ -157,7 +172,7 @@ class World:
                 if r[0] == 'ok':
                     d.callback(pyval(r[1]))
                 else:
-                    d.errback(E(r[1]))
+                    d.errback(mkexc(r[1]))
                 return ['fired', False]
             except self.defer.AlreadyCalledError:
                 return ['fired', True]
@@ -172,7 +187,7 @@ class World:
                 if r[0] == 'ok':
                     inner.callback(pyval(r[1]))
                 else:
-                    inner.errback(E(r[1]))
+                    inner.errback(mkexc(r[1]))
                 return ['resumed', True]
             return ['resumed', False]
         if kind == 'match':
@@ -186,21 +201,17 @@ class C20(Prop):
     id = 'C20'
     budgets = {'quick': 8000, 'thorough': 40000}
     time_limit = {'quick': 60, 'thorough': 600}
-    rule = ('histories of 1-12 operations (0-3 callbacks attached first, 70 % then fired) on a real twisted Deferred: fire with a value (None, ints, nested tuples; 30 % '
-            'value tokens: objects equal to everything / mock.ANY / with a == that has no truth value, empty str/list/tuple/dict, a falsy object - the hostile '
-            'three only in histories without an Equals matcher, which is equality by design; what comes back is identified with `is`) / fail with an exception, '
+    rule = ('histories of 1-12 operations (0-3 callbacks attached first, 70 % then fired) on a real twisted Deferred: fire with a value (None, ints, nested tuples; in 40 % of the histories also objects equal to everything, objects whose == has no truth value, '', [], False, ()) / fail with an exception (plain, or equal to everything / falsy / with a no-truth-value ==), '
             'addCallbacks with pairs that pass through, return a value, raise, return an already-fired or an unfired Deferred (chaining), probes that record '
             'what later callbacks see; resume of the chained Deferred; has_no_result / succeeded(Always|Never|Equals) / failed(Always|Never|exception code); '
             'classify = the three classifying matchers on three replicas of the Deferred; extract_result; afterwards the Deferred is dropped and the Twisted '
             'log is checked for "Unhandled error in Deferred". Plus tests run with SynchronousDeferredRunTest that return / raise / return fired or unfired '
-            'Deferreds, incl. every value token returned directly or in a fired Deferred; every quick run covers a token x route grid (extract_result, the three '
-            'matchers, probes after a match, callbacks returning the token, resume with it). thorough adds every history of length <= 5 over a 14-operation alphabet. non-trivial = a history with a matcher or extract after at '
+            'Deferreds. thorough adds every history of length <= 5 over a 14-operation alphabet and every history of length <= 3 over a 22-operation alphabet with the unusual values and exceptions. non-trivial = a history with a matcher or extract after at '
             'least one other operation, or a runUser case with a Deferred; distinct = distinct input S-expression')
     assumptions = ['twisted.internet.defer.Deferred (callback chain, pausing on a returned Deferred, AlreadyCalledError, DebugInfo.__del__ logging '
                    '"Unhandled error in Deferred" exactly when the last result is a Failure) is modelled by TTV.Deferred.runCbs/add/fire/resume, not verified',
-                   'values: the model never looks inside a number; numbers >= 100 stand for special Python objects (hostile ==, falsy) and the harness maps '
-                   'results back by identity, so "extract_result returns the value" / "a successful result is left intact" are checked as identity',
-                   'inner matchers are Always/Never/Equals (values) and Always/Never/exception-code (failures); they are assumed pure',
+                   'inner matchers are Always/Never/Equals (values) and Always/Never/exception-code (failures); they are assumed pure; with values whose '
+                   '== is unusual only Always/Never are used (Equals would be answered by the value\'s own ==, which is not what is under test)',
                    'garbage collection: the Deferred is dropped and gc.collect() is run inside the case; CPython reference counting semantics are assumed',
                    'SynchronousDeferredRunTest: only the reported outcome kind is compared (not details or tracebacks)',
                    'translator tie: harness/pydeferred2lean.py reads on_deferred_result, the three matchers\' match + handlers, extract_result and '
@@ -312,29 +323,16 @@ class C20(Prop):
 
     # ------------------------------------------------------------------ generators
     VALS = [None, ['num', 0], ['num', 1], ['num', 2], ['num', 7], ['pair', ['num', 1], None], ['pair', ['pair', None, ['num', 3]], ['num', 1]]]
-    TOKS = [['num', TOKEN_BASE + k] for k in range(len(TOKENS))]
+    #: values with an unusual == / truth value: equal-to-everything, no-truth-value ==, "", [], False, ()
+    SYMS = [['sym', k] for k in range(6)] + [['pair', ['sym', 0], ['sym', 3]]]
 
     def g_val(self, rng):
-        if rng.random() < 0.3:
-            t = rng.choice(self.TOKS)
-            return t if rng.random() < 0.8 else ['pair', t, rng.choice(self.VALS)]
-        return rng.choice(self.VALS)
-
-    @staticmethod
-    def tame(x):
-        """hostile tokens -> falsy tokens (for histories with an Equals matcher: Equals is equality by design)"""
-        if isinstance(x, list):
-            if len(x) == 2 and x[0] == 'num' and isinstance(x[1], int) and 0 <= x[1] - TOKEN_BASE < HOSTILE:
-                return ['num', x[1] + HOSTILE]
-            return [C20.tame(y) for y in x]
-        return x
-
-    @staticmethod
-    def has_equals(x):
-        return isinstance(x, list) and (x[:1] == ['equals'] or any(C20.has_equals(y) for y in x))
+        return rng.choice(self.SYMS) if self.weird and rng.random() < 0.45 else rng.choice(self.VALS)
 
     def g_res(self, rng):
-        return ['ok', self.g_val(rng)] if rng.random() < 0.6 else ['fail', rng.randrange(3)]
+        if rng.random() < 0.6:
+            return ['ok', self.g_val(rng)]
+        return ['fail', rng.choice([3, 4, 5]) if self.weird and rng.random() < 0.5 else rng.randrange(3)]
 
     def g_act(self, rng, errback):
         r = rng.random()
@@ -351,8 +349,10 @@ class C20(Prop):
         if r < 0.3:
             return 'noResult'
         if r < 0.65:
+            if self.weird:      # the inner matcher is not under test: Equals would be decided by the value's own ==
+                return ['succeeded', rng.choice(['always', 'always', 'never'])]
             return ['succeeded', rng.choice(['always', 'always', 'never', ['equals', self.g_val(rng)], ['equals', ['num', 1]]])]
-        return ['failed', rng.choice(['always', 'always', 'never', ['isExc', rng.randrange(3)]])]
+        return ['failed', rng.choice(['always', 'always', 'never', ['isExc', rng.randrange(6 if self.weird else 3)]])]
 
     def g_add(self, rng, probe_ids):
         tag = ['probe', next(probe_ids)] if rng.random() < 0.6 else 'plain'
@@ -372,7 +372,10 @@ class C20(Prop):
             return 'classify'
         return 'extract'
 
+    weird = False
+
     def g_history(self, rng):
+        self.weird = rng.random() < 0.4       # 40 % of the histories draw values / exceptions with an unusual == or truth value
         ids = itertools.count()
         ops = [self.g_add(rng, ids) for _ in range(rng.choice([0, 0, 0, 1, 1, 2, 3]))]
         fired = rng.random() < 0.7
@@ -384,16 +387,15 @@ class C20(Prop):
             ops.append(op)
             if op[0] == 'add' and 'wait' in op[1][1:3] and rng.random() < 0.6:
                 ops.append(['resume', self.g_res(rng)])
-        return self.tame(ops) if self.has_equals(ops) else ops
+        return ops
 
-    BEHS = ['returnsUnfired'] + [['returns', v] for v in (None, ['num', 3], ['num', 0])] + [['raises', k] for k in ('failure', 'error', 'skip')] + \
-           [['returnsFired', None, v] for v in (None, ['num', 3], ['num', 0], ['pair', None, ['num', 1]])] + \
-           [['returnsFired', ['some', k], None] for k in ('failure', 'error', 'skip')] + \
-           [['returns', ['num', TOKEN_BASE + k]] for k in range(len(TOKENS))] + \
-           [['returnsFired', None, ['num', TOKEN_BASE + k]] for k in range(len(TOKENS))]
+    BEHS = ['returnsUnfired'] + [['returns', v] for v in (None, ['num', 3], ['num', 0])] + [['returns', ['sym', k]] for k in range(6)] + \
+           [['raises', k] for k in ('failure', 'error', 'skip')] + \
+           [['returnsFired', None, v] for v in (None, ['num', 3], ['num', 0], ['pair', None, ['num', 1]])] + [['returnsFired', None, ['sym', k]] for k in range(6)] + \
+           [['returnsFired', ['some', k], None] for k in ('failure', 'error', 'skip')]
 
     def gen(self, rng, tier):
-        if rng.random() < 0.04:
+        if rng.random() < 0.06:
             return ['runUser', rng.choice(self.BEHS)]
         return ['history', self.g_history(rng)]
 
@@ -403,25 +405,18 @@ class C20(Prop):
                 ['resume', ['ok', ['num', 1]]], ['resume', ['fail', 2]],
                 ['match', 'noResult'], ['match', ['succeeded', ['equals', ['num', 1]]]], ['match', ['failed', 'always']], 'classify', 'extract']
 
-    def corpus(self):
-        return Prop.corpus(self) + self.value_grid()
-
-    def value_grid(self):
-        """every token x the ways a value passes through testtools code: extract_result, the three matchers on a Deferred fired with
-        it / whose callback returned it, a probe after a match, and a test returning it (directly / in a fired Deferred)"""
-        out = [['runUser', b] for b in self.BEHS]
-        for t in self.TOKS + [['num', 0], None, ['pair', self.TOKS[0], self.TOKS[3]]]:
-            out.append(['history', [['fire', ['ok', t]], 'extract', 'classify', ['match', ['succeeded', 'always']],
-                                    ['add', ['cb', 'keep', 'keep', ['probe', 0]]], 'extract']])
-            out.append(['history', [['add', ['cb', ['ret', ['ok', t], False], ['ret', ['ok', t], True], 'plain']], ['fire', ['fail', 1]],
-                                    ['match', 'noResult'], ['match', ['failed', 'always']], ['match', ['succeeded', 'never']], 'extract']])
-            out.append(['history', [['add', ['cb', 'wait', 'keep', 'plain']], ['fire', ['ok', None]], ['match', 'noResult'],
-                                    ['resume', ['ok', t]], 'classify', 'extract', ['add', ['cb', 'inc', 'keep', ['probe', 1]]], 'extract']])
-        return out
+    #: the same with values / exceptions whose == or truth value is unusual (no Equals inner matcher: that is the value's own ==)
+    ALPHABET_WEIRD = [op for op in ALPHABET if op != ['match', ['succeeded', ['equals', ['num', 1]]]]] + [
+        ['fire', ['ok', ['sym', 0]]], ['fire', ['ok', ['sym', 1]]], ['fire', ['ok', ['sym', 4]]], ['fire', ['fail', 3]], ['fire', ['fail', 4]], ['fire', ['fail', 5]],
+        ['add', ['cb', ['ret', ['ok', ['sym', 3]], False], ['ret', ['ok', ['sym', 2]], True], ['probe', 1]]], ['match', ['succeeded', 'always']], ['resume', ['ok', ['sym', 0]]]]
 
     def enumerate(self, tier):
         for b in self.BEHS:
             yield ['runUser', b]
+        for n in range(1, 4):
+            for ops in itertools.product(self.ALPHABET_WEIRD, repeat=n):
+                if any('sym' in str(op) or "'fail', 3" in str(op) or "'fail', 4" in str(op) or "'fail', 5" in str(op) for op in ops):
+                    yield ['history', list(ops)]
         for n in range(1, 6):
             for ops in itertools.product(self.ALPHABET, repeat=n):
                 yield ['history', list(ops)]
@@ -443,17 +438,13 @@ class C20(Prop):
             return ['kind:runUser', 'runUser:' + (inp[1] if isinstance(inp[1], str) else inp[1][0] + ('-failed' if inp[1][0] == 'returnsFired' and inp[1][1] else ''))]
         ops = inp[1]
         f = ['kind:history', 'len=%s' % (len(ops) if len(ops) < 7 else '7+')]
-
-        def toks(x):
-            if isinstance(x, list):
-                if len(x) == 2 and x[0] == 'num' and isinstance(x[1], int) and 0 <= x[1] - TOKEN_BASE < len(TOKENS):
-                    yield x[1] - TOKEN_BASE
-                else:
-                    for y in x:
-                        for t in toks(y):
-                            yield t
-        for t in sorted(set(toks(ops))):
-            f.append('value:' + TOKEN_NAMES[t])
+        txt = str(ops)
+        for k, name in enumerate(['equal-to-everything', 'no-truth-eq', 'empty-str', 'empty-list', 'False', 'empty-tuple']):
+            if "['sym', %d]" % k in txt:
+                f.append('value:' + name)
+        for k, name in ((3, 'eq-all'), (4, 'falsy'), (5, 'no-truth-eq')):
+            if "['fail', %d]" % k in txt:
+                f.append('exception:' + name)
         for op, ob in zip(ops, trace[1]):
             name = op if isinstance(op, str) else op[0]
             f.append('op:' + name)
